@@ -37,6 +37,17 @@ def run(ctx):
         for u in ([ucfg(sig=s) for s in P.all_sigs(d)] if d <= 2 else config_list(ctx, d, 2 if q else 6, 1 if d <= 4 else 0)):
             kts = P.sampled_key_tuples(rng, d, 2 * n, max_len={1: 2, 2: 4, 3: 6, 4: 5, 5: 4, 6: 3}[d])
             groups.append({'u': u, 'opts': {}, 'cases': [('law', [kts[2 * i], kts[2 * i + 1]], []) for i in range(n)], 'revisit': 0})
+    # the same operators on multivectors whose coefficients are kingdon's own RationalPolynomial symbols (`lawrp` events):
+    # overlapping operands, the sum computed twice, operands read again afterwards
+    for d, n in ((2, 12 if q else 80), (3, 8 if q else 80), (4, 3 if q else 30)):
+        for u in config_list(ctx, d, 2 if q else 5, 1):
+            cases = []
+            for i in range(n):
+                kx = list(P.random_key_tuple(rng, d, 4, 1))
+                ky = rng.sample(kx, rng.randint(1, len(kx))) + [b for b in rng.sample(range(2 ** d), 2) if b not in kx][:rng.randint(0, 1)]   # overlapping blades
+                rng.shuffle(ky)
+                cases.append(('lawrp', [kx, ky], []))
+            groups.append({'u': u, 'opts': {}, 'cases': cases, 'revisit': 0})
     run_plan(ctx, groups)
     return ctx.finish(
         rule='case = (configuration, options, operator in {add,sub,neg,reverse,involute,conjugate,grade(selection)}, ordered key '
